@@ -36,6 +36,7 @@ type cfg struct {
 	PeerISS uint32 `json:"peer_iss"`
 	OwnISS  uint32 `json:"own_iss"`
 	Steps   int    `json:"steps"`
+	Trailer []byte `json:"trailer,omitempty"` // bytes behind the peer's SYN options (end-of-option-list + stale bytes)
 	Cookie  bool   `json:"cookie"` // passive open answered with a SYN cookie (listener under pressure)
 }
 
@@ -62,6 +63,11 @@ func genCfg(seed int64, k int) cfg {
 		c.OwnISS = pool[r.Intn(len(pool))] - uint32(r.Intn(spans[r.Intn(len(spans))]))
 	}
 	c.Steps = 10 + r.Intn(40)
+	if r.Chance(1, 6) {
+		// the peer ends its option list explicitly and leaves stale bytes behind the
+		// end-of-option-list byte (what follows EOL is padding, whatever it looks like)
+		c.Trailer = [][]byte{{0, 2, 4, 5, 0xb4, 0, 0, 0}, {0, 3, 3, 7}, {0, 2, 4, 0xff, 0xff, 3, 3, 14}, {0, 8, 10, 1, 2, 3, 4, 0, 0, 0, 0, 0}}[r.Intn(4)]
+	}
 	// last draw, so that the other fields keep their values for a given k
 	if !c.Active && r.Chance(1, 5) {
 		c.Cookie = true
@@ -89,7 +95,7 @@ func scenario(c cfg) {
 	if c.Cookie {
 		tcp.SynRcvdCountThreshold = 0
 	}
-	conn, emsg := p.Establish(rawpeer.EstOpts{Active: c.Active, LPort: 80, PPort: uint16(20000 + c.K%20000), PeerISS: c.PeerISS, OwnISS: &own, MSS: c.MSS, WS: c.WS, TS: c.TS, SACK: c.SACK, Window: c.Window, RcvBuf: c.RcvBuf})
+	conn, emsg := p.Establish(rawpeer.EstOpts{Active: c.Active, LPort: 80, PPort: uint16(20000 + c.K%20000), PeerISS: c.PeerISS, OwnISS: &own, MSS: c.MSS, WS: c.WS, TS: c.TS, SACK: c.SACK, Window: c.Window, RcvBuf: c.RcvBuf, Trailer: c.Trailer})
 	if conn == nil {
 		if len(emsg) > 8 && emsg[:8] == "harness:" {
 			run.Broken(emsg)
